@@ -128,6 +128,53 @@ class CandRun(object):
                           'traits': rng.sample(tr, rng.choice([1, 2, 3]))}})
             g.P = [scale.P(i) for i in rng.sample(range(self.big), 5)] + \
                 [scale.P(self.big - 1)]
+        elif rng.random() < 0.18:
+            # several flat compute nodes behind ONE aggregate with a sharing
+            # disk provider (every node is an anchor of it), some of them
+            # with local disk as well: the same sharing-only candidate is
+            # produced once per anchor
+            P = g.P
+            agg1 = g.A[0]
+            self.sharing_heavy = True
+            n_cn = min(len(P) - 1, rng.choice([2, 3, 4]))
+            local = set(rng.sample(range(n_cn), rng.randint(1, n_cn - 1)))
+            for c in range(n_cn):
+                cn = P[c]
+                rcs = ['VCPU', 'MEMORY_MB'] + (['DISK_GB'] if c in local
+                                               else [])
+                template.append({'m': 'POST', 'p': '/resource_providers',
+                                 'v': '1.39', 'kind': 'rp_create',
+                                 'b': {'name': 'cn-%d' % c, 'uuid': cn}})
+                template.append({
+                    'm': 'PUT', 'kind': 'inv_put_all', 'v': '1.39',
+                    'p': '/resource_providers/%s/inventories' % cn,
+                    'b': {'resource_provider_generation': 0,
+                          'inventories': {rc: g.gen_inventory()
+                                          for rc in rcs}}})
+                template.append({
+                    'm': 'PUT', 'kind': 'agg_put', 'v': '1.39',
+                    'p': '/resource_providers/%s/aggregates' % cn,
+                    'b': {'resource_provider_generation': 1,
+                          'aggregates': [agg1]}})
+            ss = P[n_cn]
+            template.append({'m': 'POST', 'p': '/resource_providers',
+                             'v': '1.39', 'kind': 'rp_create',
+                             'b': {'name': 'shared-disk', 'uuid': ss}})
+            template.append({
+                'm': 'PUT', 'kind': 'inv_put_all', 'v': '1.39',
+                'p': '/resource_providers/%s/inventories' % ss,
+                'b': {'resource_provider_generation': 0,
+                      'inventories': {'DISK_GB': g.gen_inventory()}}})
+            template.append({
+                'm': 'PUT', 'kind': 'rpt_put', 'v': '1.39',
+                'p': '/resource_providers/%s/traits' % ss,
+                'b': {'resource_provider_generation': 1,
+                      'traits': ['MISC_SHARES_VIA_AGGREGATE']}})
+            template.append({
+                'm': 'PUT', 'kind': 'agg_put', 'v': '1.39',
+                'p': '/resource_providers/%s/aggregates' % ss,
+                'b': {'resource_provider_generation': 2,
+                      'aggregates': [agg1]}})
         elif rng.random() < 0.55:
             P = g.P
             agg1, agg2 = g.A[0], g.A[1]
@@ -211,7 +258,9 @@ class CandRun(object):
                     r.json['resource_provider_generation']
         if self.big:
             self.model.adopt(dump.natural(w))
-        for i in range(rng.randint(6 if template else 12, 32)
+        for i in range((rng.randint(6 if template else 12, 32)
+                        if not getattr(self, 'sharing_heavy', False)
+                        else rng.randint(0, 6))
                        if not self.big else 8):
             op = g.next_op(self.model)
             pre = self.model.clone()
@@ -283,7 +332,11 @@ class CandRun(object):
                     params.append(('member_of' + sfx, a[0]))
             if vv >= (1, 31) and rng.random() < 0.1:
                 params.append(('in_tree' + sfx, rng.choice(provs)))
-        has_unsuffixed = vv < (1, 25) or rng.random() < 0.7
+        heavy = getattr(self, 'sharing_heavy', False)
+        if heavy and 'DISK_GB' in classes and rng.random() < 0.7:
+            classes = ['DISK_GB']
+        has_unsuffixed = vv < (1, 25) or rng.random() < (
+            0.35 if heavy else 0.7)
         if has_unsuffixed:
             groups[''] = resources()
             params.append(('resources', res_str(groups[''])))
@@ -302,6 +355,12 @@ class CandRun(object):
                 s = str(i + 1)
             sfxs.append(s)
             groups[s] = resources()
+            if groups and rng.random() < 0.3:
+                # several groups asking for the same class (they may land on
+                # one provider, e.g. a sharing one)
+                other = rng.choice(sorted(groups))
+                rc_ = rng.choice(sorted(groups[other]))
+                groups[s] = {rc_: rng.choice([1, 2, 3, 5])}
             params.append(('resources' + s, res_str(groups[s])))
             add_filters(s)
         if n_sfx > 1 or (n_sfx == 1 and rng.random() < 0.3):
@@ -325,6 +384,9 @@ class CandRun(object):
         elif vv >= (1, 36) and len(sfxs) >= 2 and rng.random() < 0.3:
             params.append(('same_subtree', ','.join(
                 rng.sample(sfxs, rng.randint(2, len(sfxs))))))
+        if rng.random() < 0.5:
+            # the order of the parameters in the query string is free
+            rng.shuffle(params)
         return {'v': v, 'params': params, 'groups': groups}
 
     @staticmethod
